@@ -77,7 +77,7 @@ def IdxSpec.toks : IdxSpec → List Tok'
   | .kw _ spelled i => ⟨.ident, spelled⟩ :: T .lparen :: (yield i ++ [T .rparen])
 
 def IdxSpec.good : IdxSpec → Prop
-  | .plain i => PrecOK i ∧ NF i ∧ startsPosKw (yield i) = false
+  | .plain i => PrecOK i ∧ NF i
   | .kw k spelled i => PrecOK i ∧ NF i ∧ posKwName spelled = some k
 
 structure SoundAt (f : Nat) : Prop where
@@ -693,12 +693,16 @@ theorem s_idx (ih : SoundAt f) : ∀ ts s rest, parseIndexSpecifier (f + 1) ts =
         obtain ⟨t, tl, rfl, ht⟩ := cur_ne_eof hc (by decide)
         simpa [posKwOf_eq ht] using hk
       · cases h2
-    · cases h
+    · -- the word is not followed by `(`: an ordinary name, `default:` branch
+      obtain ⟨⟨e1, ts1⟩, h1, h2⟩ := Res.bind_eq_ok.1 h
+      cases h2
+      obtain ⟨s1, p1, n1, _⟩ := ih.expr _ _ _ h1
+      exact ⟨s1, p1, n1⟩
   · rename_i hk
     obtain ⟨⟨e1, ts1⟩, h1, h2⟩ := Res.bind_eq_ok.1 h
     cases h2
     obtain ⟨s1, p1, n1, _⟩ := ih.expr _ _ _ h1
-    exact ⟨s1, p1, n1, startsPosKw_of_none hk s1⟩
+    exact ⟨s1, p1, n1⟩
 
 theorem s_paren (ih : SoundAt f) : ∀ ts e rest, cur ts = .lparen → parseParenExpr (f + 1) ts = .ok (e, rest) →
     Good 0 ts e rest := by
